@@ -7,6 +7,8 @@ import (
 var _ interface {
 	FS
 	MountFS
+	RemoveFS
+	RemoveAllFS
 } = &subFS{}
 
 type subFS struct {
@@ -38,4 +40,22 @@ func (fs *subFS) Mount(p string) (mount FS, subPath string) {
 		return fs.rootFS, p
 	}
 	return fs.rootFS, path.Join(fs.basePath, p)
+}
+
+// Remove implements RemoveFS. Like the root of any file system, the root of the view cannot be removed through the view.
+func (fs *subFS) Remove(name string) error {
+	if name == "." {
+		return &PathError{Op: "remove", Path: name, Err: ErrInvalid}
+	}
+	mount, subPath := fs.Mount(name)
+	return stripErrPathPrefix(Remove(mount, subPath), name, subPath)
+}
+
+// RemoveAll implements RemoveAllFS. The root of the view itself is kept, see Remove.
+func (fs *subFS) RemoveAll(name string) error {
+	if name == "." {
+		return &PathError{Op: "removeall", Path: name, Err: ErrInvalid}
+	}
+	mount, subPath := fs.Mount(name)
+	return stripErrPathPrefix(RemoveAll(mount, subPath), name, subPath)
 }
